@@ -37,7 +37,15 @@ RULE = ('every spec of: [cross] blocks 1..3 x variables per block 1..12 x value 
         'TOUGHREACT / TOUGH2 file re-used through read() (blocks 1..2 x nvar {2,5} x 3 permeability settings x 4 '
         'timing/reset); [negexp3] a negative three-digit-exponent value at each position of records of 1..8 (and 9, 12) '
         'variables; [nocheck] check_blocknames=False given three ways x 6 name families; [trnoperm] TOUGHREACT flavour without permeabilities; [order] order-independence passes; '
-        '[shipped] the 7 shipped files, and 4 ordered pairs of them read into one object. Each spec: '
+        '[shipped] the 7 shipped files, and 4 ordered pairs of them read into one object; [history] ONE t2incon object '
+        'taken through every sequence of length 0..d of its editing operations {add_incon / inc[name] = block / '
+        'inc[name] = list of a pool name (append when absent, replace when present), insert_incon of an absent pool '
+        'name at every position 0..len, delete_incon of every pool name (no-op when absent), empty(), read() of a '
+        '3-block file, observe (look-ups + write)} from each start state {fresh, 3 blocks appended, 3 blocks read '
+        'from a file} x configurations (flavour x variables per block x timing/reset x name family x form of the '
+        'assignment), a reference ordered list edited alongside; judged at the end of every sequence: object '
+        '(positions, by-name access) = list, written file = list by the reference reader, read back = list, '
+        'rewritten byte for byte. Each spec: '
         'library write -> reference reader; library write -> library read -> compare -> rewrite byte-identical; '
         'reference writer (Fortran styles) -> library read.  Non-trivial = at least one block; distinct = distinct spec.')
 ASSUMPTIONS = [
@@ -54,23 +62,31 @@ ASSUMPTIONS = [
     'blank-to-zero rule): names like "abc05", which the simulator itself prints as "abc 5", are not enumerated',
     'the TOUGHREACT flavour is observable in a file only through permeabilities: TOUGHREACT cases have at least one '
     'block with a permeability triple, TOUGH2 cases have none; nseq = 0 is documented to read back as absent',
+    'operation histories: insert_incon is only given names that are not in the set (add_incon documents that a name '
+    'that is there is replaced; two blocks of one name are not a set of initial conditions); indices 0..len; every '
+    'block of a history has the same number of variables',
     'tolerances are the digits of the statement / layout: variables 14 significant digits (13 decimals), porosity, '
     'permeability and timing reals 9 significant digits; for reference-written files the digits of the style']
 BOUNDS = {
-    'quick': {'cross': 'blocks {1,3} x nvar {1,3,4,5,8,9,12} x forms {mixed, negative, exp3} x 3 porosity x 2 flavours x '
-                       'seq {absent,(1,2)} x 4 timing/reset x 3 name families x reader modes',
+    'quick': {'cross': 'blocks {1,3} x nvar {1,3,4,5,8,9,12} x forms {mixed, negative, exp3, lastzero} x 3 porosity x 2 '
+                       'flavours x 3 seq x 4 timing/reset x 6 name families x reader modes',
               'many': '40 blocks x nvar {4,5}', 'styles': '2 per case (+12-style cross on 48 cases)',
-              'shipped': '5 small files'},
+              'shipped': '5 small files',
+              'history': '6 configurations x 3 start states x every operation sequence of length <= 3 over a pool '
+                         'of 3 base + 1 further names'},
     'thorough': {'cross': 'blocks 1..3 x nvar 1..12 x 5 forms x 3 porosity x 2 flavours x 3 seq x 4 timing/reset x 6 name '
                           'families x reader modes',
                  'many': '40 blocks x nvar {1,4,5,12}', 'styles': '3 per case (+12-style cross on 288 cases)',
-                 'shipped': 'all 7 files (incl. the 2.5 MB one)'}}
+                 'shipped': 'all 7 files (incl. the 2.5 MB one)',
+                 'history': '3 start states x every operation sequence over a pool of 3 base + 2 further names: '
+                            'length <= 4 in 2 configurations, length <= 3 in 4 more'}}
 TECHNIQUE = ('bounded exhaustive enumeration of initial-condition configurations on the real t2incon.write / read, '
              'cross-checked in both directions by a reference fixed-column reader/writer that reads and prints like the '
              'simulator')
 LEVEL_TEXT = ('Every configuration of the stated cross product is written by the library and read by the reference '
               'reader, read back and rewritten by the library, and rendered by the reference writer in three Fortran '
-              'styles and read by the library; nothing is sampled.')
+              'styles and read by the library; every sequence of editing operations on one object up to the stated '
+              'length is replayed against a reference list and round-tripped; nothing is sampled.')
 LEVEL_NOTE = ('Trusted: ref/fixedcol.py + ref/layout/incon.json, ref/fortnum.py. Not claimed: mixed variable counts, '
               'negative three-digit-exponent values, non-canonical block names, num_variables above the actual count.')
 
@@ -173,7 +189,7 @@ def specs_cross(tier):
         seqs, fams = ('none', 'small', 'big'), FAMILIES
     else:
         ns, nvars, forms = (1, 3), (1, 3, 4, 5, 8, 9, 12), ('mixed', 'neg', 'exp3', 'lastzero')
-        seqs, fams = ('none', 'small'), ('conv0num', 'conv2', 'conv3')
+        seqs, fams = ('none', 'small', 'big'), FAMILIES
     out = []
     for n, nvar, form, por, perm, seq, (timing, reset), fam in itertools.product(
             ns, nvars, forms, ('none', 'val', 'zero'), (False, True), seqs, TR, fams):
@@ -295,7 +311,7 @@ def units(tier):
         k = max(1, min(nchunks, n))
         for i in range(k):
             us.append((name, i, k))
-    return us
+    return us + hist_units(tier)
 
 
 # ------------------------------------------------------------------------------------------ model of a case
@@ -876,6 +892,296 @@ def shipped_check(spec):
     return viol, 'shipped', stats
 
 
+# ------------------------------------------------------------------------------------------ operation histories
+
+# One t2incon object is taken through a sequence of its public editing operations; a plain ordered list is edited
+# alongside (the reference).  After the sequence the object must show the list (positions, by-name access), the
+# file written from it must contain exactly the list (reference reader), read back as the list, and be rewritten
+# byte for byte.  Every sequence over the stated alphabet up to the stated depth, from each start state.
+HIST_CONFIGS = {
+    'T2-add': {'flavour': 'TOUGH2', 'nvar': 2, 'timing': False, 'reset': True, 'names': 'conv0num', 'form': 'add'},
+    'TR-setobj': {'flavour': 'TOUGHREACT', 'nvar': 5, 'timing': True, 'reset': False, 'names': 'quirk', 'form': 'setobj'},
+    'T2-setlist': {'flavour': 'TOUGH2', 'nvar': 3, 'timing': True, 'reset': False, 'names': 'conv2', 'form': 'setlist'},
+    'TR-add': {'flavour': 'TOUGHREACT', 'nvar': 4, 'timing': False, 'reset': True, 'names': 'conv0', 'form': 'add'},
+    'T2-setobj': {'flavour': 'TOUGH2', 'nvar': 9, 'timing': True, 'reset': True, 'names': 'conv1', 'form': 'setobj'},
+    'TR-setlist': {'flavour': 'TOUGHREACT', 'nvar': 1, 'timing': True, 'reset': False, 'names': 'conv3', 'form': 'setlist'},
+}
+HIST_STARTS = ('empty', 'append', 'read')
+HIST_BASE = 3           # blocks of the 'append' / 'read' start states and of the file the 'read' operation reads
+HIST_TIERS = {          # (configurations, names beyond the base ones, depth)
+    'quick': [(('T2-add', 'TR-setobj', 'T2-setlist', 'TR-add', 'T2-setobj', 'TR-setlist'), 1, 3)],
+    'thorough': [(('T2-add', 'TR-setobj'), 2, 4),
+                 (('T2-setlist', 'TR-add', 'T2-setobj', 'TR-setlist'), 2, 3)],
+}
+
+
+def hist_plan(tier):
+    return [(c, extra, depth) for cfgs, extra, depth in HIST_TIERS[tier] for c in cfgs]
+
+
+def hist_block(cfg, j, v, plain=False):
+    """Block number j of the name pool in its version v (0: base; k: given by the k-th operation)."""
+    c = HIST_CONFIGS[cfg]
+    b = j + 5 * v
+    blk = {'name': name_family(c['names'])[j], 'vars': [value('mixed', b, i) for i in range(c['nvar'])],
+           'por': None, 'perm': None, 'nseq': None, 'nadd': None}
+    if not plain:
+        blk['por'] = [None, 0.1 + 0.0123456789012 * b, 0.0][(j + v) % 3]
+        if c['flavour'] == 'TOUGHREACT' and (j + v) % 2 == 0:
+            blk['perm'] = [6.51e-14 * (b + 1), 1.2345678901e-15, 3.3e-13 + 1e-20 * b]
+        if (j + v) % 2:
+            blk['nseq'], blk['nadd'] = 1 + v, 2 + j
+    return blk
+
+
+def hist_base(cfg):
+    return [hist_block(cfg, j, 0) for j in range(HIST_BASE)]
+
+
+def hist_alphabet(names_present, pool):
+    """The operations offered in a state of the reference list.  An insertion is only offered for a name that is
+    not in the set (a second block of a name that is there is what add_incon's replacement rule excludes)."""
+    L = len(names_present)
+    ops = [['set', j] for j in range(pool)]
+    ops += [['ins', i, j] for j in range(pool) if j not in names_present for i in range(L + 1)]
+    ops += [['del', j] for j in range(pool)]
+    ops += [['empty'], ['read'], ['obs']]
+    return ops
+
+
+def hist_step(present, op):
+    """Names (pool numbers, in order) after the operation."""
+    k = op[0]
+    if k == 'set':
+        return present if op[1] in present else present + [op[1]]
+    if k == 'ins':
+        return present[:op[1]] + [op[2]] + present[op[1]:]
+    if k == 'del':
+        return [j for j in present if j != op[1]]
+    if k == 'empty':
+        return []
+    if k == 'read':
+        return list(range(HIST_BASE))
+    return present
+
+
+def hist_start_names(start):
+    return [] if start == 'empty' else list(range(HIST_BASE))
+
+
+def hist_sequences(start, pool, depth, first):
+    """Every operation sequence of length 1..depth whose first operation is number `first` of the start state's
+    alphabet (and, with first == 0, the empty sequence)."""
+    out = [[]] if first == 0 else []
+
+    def rec(present, seq):
+        out.append(seq)
+        if len(seq) < depth:
+            for op in hist_alphabet(present, pool):
+                rec(hist_step(present, op), seq + [op])
+    p0 = hist_start_names(start)
+    op = hist_alphabet(p0, pool)[first]
+    rec(hist_step(p0, op), [op])
+    return out
+
+
+def hist_units(tier):
+    us = []
+    for cfg, extra, depth in hist_plan(tier):
+        for start in HIST_STARTS:
+            for a in range(len(hist_alphabet(hist_start_names(start), HIST_BASE + extra))):
+                us.append(('history', (cfg, start, a, HIST_BASE + extra), depth))
+    return us
+
+
+def hist_base_file(cfg):
+    c = HIST_CONFIGS[cfg]
+    path = os.path.join(core.scratch(), 'c13_hbase_%s.incon' % cfg)
+    if not os.path.exists(path):
+        blocks = hist_base(cfg)
+        img = file_image({'blocks': blocks, 'timing': dict(TIMING) if c['timing'] else None,
+                          'toughreact': any(b['perm'] is not None for b in blocks)})
+        with open(path, 'w', newline='') as fh:
+            fh.write(fc.write_incon(img, STYLES['autough2']))
+    return path
+
+
+def hist_mkblock(b, bare_name=False):
+    import numpy as np
+    import t2incons
+    return t2incons.t2blockincon(list(b['vars']), '' if bare_name else b['name'], b['por'],
+                                 None if b['perm'] is None else np.array(b['perm']), b['nseq'], b['nadd'])
+
+
+def hist_run(spec):
+    """Applies the history to a t2incon object and to the reference list.  -> (object, model, kinds)"""
+    import t2incons
+    cfg = spec['hist']
+    c = HIST_CONFIGS[cfg]
+    nv = c['nvar'] if c['nvar'] > 4 else None
+    check = c['names'] != 'conv3'
+    base_timing = dict(TIMING) if c['timing'] else None
+    if spec['start'] == 'read':
+        inc = t2incons.t2incon(hist_base_file(cfg), num_variables=nv, check_blocknames=check)
+        blocks, timing = hist_base(cfg), base_timing
+        if c['flavour'] == 'TOUGHREACT':
+            inc.simulator = 'TOUGHREACT'        # (what the file says when it has permeabilities; stated by the user)
+    else:
+        inc = t2incons.t2incon()
+        inc.simulator = c['flavour']
+        blocks = []
+        if spec['start'] == 'append':
+            blocks = hist_base(cfg)
+            for b in blocks:
+                inc.add_incon(hist_mkblock(b))
+        timing = base_timing
+        if timing is not None:
+            inc.timing = dict(timing)
+    kinds = []
+    for v, op in enumerate(spec['ops'], 1):
+        k = op[0]
+        names = [b['name'] for b in blocks]
+        if k == 'set':
+            form = c['form']
+            nb = hist_block(cfg, op[1], v, plain=(form == 'setlist'))
+            if form == 'add':
+                inc.add_incon(hist_mkblock(nb))
+            elif form == 'setobj':
+                inc[nb['name']] = hist_mkblock(nb, bare_name=True)
+            else:
+                inc[nb['name']] = list(nb['vars'])
+            if nb['name'] in names:
+                blocks[names.index(nb['name'])] = nb
+                kinds.append('replace')
+            else:
+                blocks.append(nb)
+                kinds.append('append')
+        elif k == 'ins':
+            nb = hist_block(cfg, op[2], v)
+            inc.insert_incon(op[1], hist_mkblock(nb))
+            blocks.insert(op[1], nb)
+            kinds.append('insert-at-end' if op[1] == len(names) else 'insert')
+        elif k == 'del':
+            name = name_family(c['names'])[op[1]]
+            inc.delete_incon(name)
+            if name in names:
+                del blocks[names.index(name)]
+                kinds.append('delete')
+            else:
+                kinds.append('delete-absent')
+        elif k == 'empty':
+            inc.empty()
+            blocks, timing = [], None
+            kinds.append('empty')
+        elif k == 'read':
+            inc.read(hist_base_file(cfg), nv, check)
+            blocks, timing = hist_base(cfg), base_timing
+            if c['flavour'] == 'TOUGHREACT':
+                inc.simulator = 'TOUGHREACT'
+            kinds.append('read')
+        elif k == 'obs':
+            describe(inc)
+            inc.write(os.path.join(core.scratch(), 'c13_hobs.incon'), c['reset'])
+            kinds.append('observe')
+        else:
+            raise core.HarnessError('operation %r' % (op,))
+    M = {'blocks': blocks, 'timing': timing, 'toughreact': any(b['perm'] is not None for b in blocks)}
+    if c['flavour'] == 'TOUGHREACT' and not M['toughreact']:
+        M['object_simulator'] = 'TOUGHREACT'
+    return inc, M, kinds
+
+
+def hist_eval(spec):
+    stats = {'round_trips': 0, 'ref_reads': 0, 'histories': 1}
+    c = HIST_CONFIGS[spec['hist']]
+    rspec = {'nvar': c['nvar'], 'numvar': 'exact' if c['nvar'] > 4 else 'none'}
+    check = c['names'] != 'conv3'
+    d = core.scratch()
+    f1, f2 = os.path.join(d, 'c13_h1.incon'), os.path.join(d, 'c13_h2.incon')
+    viol = []
+    try:
+        with quiet(), core.timelimit(TIME_LIMIT):
+            inc, M, kinds = hist_run(spec)
+    except core.CaseTimeout:
+        raise
+    except core.HarnessError:
+        raise
+    except Exception as e:
+        return [('C13|history:operations|raises|%s,%s' % (type(e).__name__, spec['hist']),
+                 'the operation sequence raised %s: %s' % (type(e).__name__, e))], 'raises', stats
+    cls = 'history,last=%s' % (kinds[-1] if kinds else 'none')
+    C = dict((k, cls) for k in ('name', 'vars', 'por', 'perm', 'seq', 'timing', 'flavour', 'count'))
+    long_form = M['timing'] is not None and not c['reset']
+    # the object itself: positions and by-name access show the reference list
+    O = Findings('history:object', spec)
+    cmp_mem(M, describe(inc), M['timing'] is not None, C, O)
+    viol += O.items
+    W = Findings('history:write', spec)
+    B = Findings('history:write+read', spec)
+    try:
+        with quiet(), core.timelimit(TIME_LIMIT):
+            inc.write(f1, c['reset'])
+            with open(f1, newline='') as fh:
+                bytes1 = fh.read()
+            try:
+                R = fc.read_incon(bytes1, c['nvar'])
+                stats['ref_reads'] += 1
+                cmp_file(M, R, long_form, C, W)
+            except fc.RefFormatError as e:
+                W.add('not-an-incon-file', 'the written file is rejected by the reference reader: %s' % e, cls)
+            inc2 = lib_read(f1, rspec, check, limit=None)
+            stats['round_trips'] += 1
+            cmp_mem(M, describe(inc2), long_form, C, B)
+            reread_differs = bool(B.items)
+            B.items = [it for it in B.items if it[0].split('|')[2] not in W.clauses]
+            inc2.write(f2, c['reset'])
+            with open(f2, newline='') as fh:
+                bytes2 = fh.read()
+            if bytes2 != bytes1 and not reread_differs:
+                B.add('rewrite.bytes-differ', 'second write differs from the first: %s' % line_diff(bytes1, bytes2), cls)
+    except core.CaseTimeout:
+        raise
+    except Exception as e:
+        B.add('raises', 'round trip of the edited conditions raised %s: %s' % (type(e).__name__, e),
+              '%s,%s' % (type(e).__name__, cls))
+    viol += W.items + B.items
+    fl = 'TOUGHREACT' if M['toughreact'] else 'TOUGH2'
+    return viol, 'history,%s,%s,blocks=%d' % (fl, 'save-form' if long_form else 'incon-form', len(M['blocks'])), stats
+
+
+def run_history_unit(unit, tier, rec):
+    (cfg, start, first, pool), depth = unit[1], unit[2]
+    _timeouts[0] = 0
+    for ops in hist_sequences(start, pool, depth, first):
+        spec = {'hist': cfg, 'start': start, 'ops': ops}
+        key = json.dumps(spec, sort_keys=True)
+        if _timeouts[0] >= MAX_TIMEOUTS_PER_UNIT:
+            rec.case(key, nontrivial=False, outcome='skipped-after-%d-timeouts' % MAX_TIMEOUTS_PER_UNIT)
+            rec.count('cap_hit', 1)
+            continue
+        try:
+            viol, outcome, stats = hist_eval(spec)
+        except core.CaseTimeout:
+            _timeouts[0] += 1
+            viol, outcome, stats = [('C13|history|timeout|config=%s' % cfg,
+                                     'operation history did not finish within its time limit')], 'timeout', {}
+        except core.HarnessError:
+            raise
+        except Exception as e:
+            import traceback
+            viol, outcome, stats = [('C13|history|blow-up|%s' % type(e).__name__,
+                                     'evaluating the history raised:\n%s' % traceback.format_exc()[-1200:])], 'blow-up', {}
+        rec.case(key, nontrivial=bool(ops), outcome=outcome)
+        for name, n in stats.items():
+            rec.count(name, n)
+        rec.count('specs_history', 1)
+        rec.count('history_depth_%d' % len(ops), 1)
+        for sig, what in viol:
+            rec.violation(sig, what, {'spec': spec, 'tier': tier})
+        if not viol and len(ops) == depth:
+            rec.sample({'spec': spec, 'outcome': outcome})
+
+
 # ------------------------------------------------------------------------------------------ order independence
 
 def order_specs(tier):
@@ -972,11 +1278,15 @@ def run_case(spec, tier):
     if 'shipped' in spec:
         with core.timelimit(SHIPPED_LIMIT[bool(spec.get('big'))]):
             return shipped_check(spec)
+    if 'hist' in spec:
+        return hist_eval(spec)
     return evaluate(spec, tier)     # every library call inside carries its own time limit
 
 
 def run_unit(unit, tier, rec):
     gname, idx, k = unit
+    if gname == 'history':
+        return run_history_unit(unit, tier, rec)
     fn = dict((n, f) for n, f, c in GROUPS)[gname]
     _timeouts[0] = 0
     for spec in fn(tier)[idx::k]:
